@@ -392,7 +392,7 @@ FAMILIES = {
                  invs=["TypeOK", "MC_C01", "MC_C02", "MC_C03", "MC_C04", "MC_C05", "MC_C06", "MC_C08"],
                  quick=dict(mc=[dict(nobj=2, caps="CapsW")],
                             sim=[dict(nobj=2, caps="Caps2", num=500, simlen=25, ops="OpsWeak"), dict(nobj=3, caps="Caps3", num=500, simlen=30, ops="OpsWeak")]),
-                 thorough=dict(mc=[dict(nobj=2, caps="CapsW", ops="OpsWeak"), dict(nobj=3, caps="CapsW")],
+                 thorough=dict(mc=[dict(nobj=2, caps="CapsW", ops="OpsWeak"), dict(nobj=3, caps="CapsQ", ops="OpsWeak3")],
                                sim=[dict(nobj=3, caps="Caps3", num=6000, simlen=40, ops="OpsWeak"), dict(nobj=4, caps="Caps3", num=6000, simlen=50, ops="OpsWeak")])),
     "dtor10": dict(ops="OpsDtor", menu="MenuC10", profile="dtor10",
                    invs=["MC_C10", "MC_C16"],
